@@ -84,6 +84,11 @@ func (g *forGen) ins(ctrs []string) item {
 func (g *forGen) block(ctrs []string, d int, mult int) (item, bool) {
 	r := g.r
 	max := 6
+	// a block that is going to contain nested blocks gets a small count, so that three levels fit into the budget of 40
+	willNest := d < 3 && r.Intn(3) == 0
+	if willNest {
+		max = 2
+	}
 	for mult*max > 40-g.total && max > 0 {
 		max--
 	}
@@ -108,7 +113,7 @@ func (g *forGen) block(ctrs []string, d int, mult int) (item, bool) {
 	}
 	nb := 1 + r.Intn(3)
 	for i := 0; i < nb; i++ {
-		if d < 3 && r.Intn(4) == 0 && g.total+mult*worst < 40 && !(i == 0 && len(it.Labels) > 0) {
+		if d < 3 && (willNest || r.Intn(6) == 0) && g.total+mult*worst < 40 && !(i == 0 && len(it.Labels) > 0) {
 			b, ok := g.block(inner, d+1, mult*worst)
 			if ok {
 				it.Body = append(it.Body, b)
